@@ -7,9 +7,8 @@
   may raise errors and may read the shared permission frame), every required permission, every query
   dictionary (single names, plural lists, type, filter, any mixture), every inventory, both kinds of
   provider, and every answer of the fast-path recogniser.  `qd.permission ≠ ""`: a request that requires
-  *no* permission (filterutility.cpp:149-150) is outside the property.  `IsoVisit` is the extra hypothesis
-  of the `…_partial` theorems (finding F-C18a); `QD.sharedFrame = false` is the repaired code, for which the
-  full statements hold.
+  *no* permission (filterutility.cpp:187-188) is outside the property.  `filterTargets` is the code as it is
+  (after bce4be0, the repair of finding F-C18a); `filterTargetsUnrepaired` is the variant before it.
 -/
 import IcingaProofs.C18.Lemmas
 import IcingaProofs.Gen.Permissions
@@ -27,52 +26,36 @@ theorem permission_match_spec (pattern required : String) :
     wildMatch pattern required = true ↔ Denotes (tokenize (lower pattern)) (lower required) :=
   wildcard_match_spec _ _
 
-/-! ### targets_subset_allowed
-
-  FULL STATEMENT (false of the unchanged code, hence of the faithful model — finding F-C18a):
-
-      ∀ u qd q inv objs, qd.permission ≠ "" → (filterTargets u qd q inv).result = .ok objs →
-        ∀ o ∈ objs, Allowed u qd.permission o ∧ o ∈ inv
-
-  GetFilterTargets evaluates the permission filter of all objects of a request in one frame
-  (filterutility.cpp:217-218) and EvaluateFilter only adds bindings, so a filter that reads `service` sees,
-  on a Host, the Service an earlier part of the same request visited.  Proved below: the statement under
-  `IsoVisit` (the exact situations in which a visited object's filter is evaluated as if alone), its three
-  instances (repaired code / frame-independent filters / single-type requests), and the counterexample. -/
-
-/-- **targets_subset_allowed_partial.**  Under `IsoVisit`, every object returned by `filterTargets` — whether
-    it was addressed by a single name, in a plural name list, selected by a user filter (evaluated or through
-    the name-index fast path), or by no addressing at all, and in any mixture of these — is one the user is
-    allowed to act on, and is a registered object. -/
-theorem targets_subset_allowed_partial (u : User) (qd : QD) (q : Query) (inv : Inventory) (objs : List Obj)
-    (hperm : qd.permission ≠ "") (hiso : IsoVisit qd.sharedFrame qd.types u)
-    (h : (filterTargets u qd q inv).result = .ok objs) :
+/-- **targets_subset_allowed.**  Every object returned by `filterTargets` — whether it was addressed by a
+    single name, in a plural name list, selected by a user filter (evaluated or through the name-index fast
+    path), or by no addressing at all, and in any mixture of these — is one the user is allowed to act on
+    (some matching permission without filter, or with a filter that is true of the object evaluated alone),
+    and is a registered object. -/
+theorem targets_subset_allowed (u : User) (qd : QD) (q : Query) (inv : Inventory) (objs : List Obj)
+    (hperm : qd.permission ≠ "") (h : (filterTargets u qd q inv).result = .ok objs) :
     ∀ o ∈ objs, Allowed u qd.permission o ∧ o ∈ inv := by
-  obtain ⟨hp, hall⟩ := filterTargets_ok u qd q inv objs hiso h
+  obtain ⟨hp, hall⟩ := filterTargets_ok false u qd q inv objs (Or.inl rfl) h
   rw [hasPermission_of_ne hperm] at hp
   intro o ho
   exact ⟨pfIso_allowed hperm hp (hall o ho).1, (hall o ho).2⟩
 
-/-- **targets_subset_allowed_fresh_frame.**  With a fresh permission frame per object (the repair proposed
-    for F-C18a) the full statement holds. -/
-theorem targets_subset_allowed_fresh_frame (u : User) (qd : QD) (q : Query) (inv : Inventory) (objs : List Obj)
-    (hperm : qd.permission ≠ "") (hfresh : qd.sharedFrame = false)
-    (h : (filterTargets u qd q inv).result = .ok objs) :
-    ∀ o ∈ objs, Allowed u qd.permission o ∧ o ∈ inv :=
-  targets_subset_allowed_partial u qd q inv objs hperm (Or.inl hfresh) h
+/-! ### The variant before the repair of F-C18a (bce4be0)
 
-theorem isoVisit_single_type (shared : Bool) (t : String) (u : User) : IsoVisit shared [t] u := by
-  by_cases ht : t = "Service"
-  · exact Or.inr (Or.inr (Or.inr (fun t' h => by simp at h; exact h ▸ ht)))
-  · exact Or.inr (Or.inr (Or.inl (fun t' h => by simp at h; exact h ▸ ht)))
+  Before bce4be0 the permission frame kept its namespace for the whole request, so a permission filter that
+  reads `service` saw, on a Host, the Service an earlier part of the same request had visited.  The
+  statements below are about that variant (`filterTargetsUnrepaired`) only; they record why the frame must
+  be emptied per object and serve as regression witnesses (the corpus replays them on the implementation). -/
 
-/-- **targets_subset_allowed_single_type.**  For a request over a single type (object query, modify,
-    delete: `qd.Types = {type}`) the full statement holds for the code as it is. -/
-theorem targets_subset_allowed_single_type (u : User) (qd : QD) (q : Query) (inv : Inventory) (objs : List Obj)
-    (t : String) (hperm : qd.permission ≠ "") (hty : qd.types = [t])
-    (h : (filterTargets u qd q inv).result = .ok objs) :
-    ∀ o ∈ objs, Allowed u qd.permission o ∧ o ∈ inv :=
-  targets_subset_allowed_partial u qd q inv objs hperm (hty ▸ isoVisit_single_type _ t u) h
+/-- For the un-repaired variant the statement holds exactly under `IsoVisit`: frame-independent filters, or a
+    request that can only visit one kind of object with respect to `service` (every single-type request). -/
+theorem unrepaired_targets_subset_allowed_of_isoVisit (u : User) (qd : QD) (q : Query) (inv : Inventory)
+    (objs : List Obj) (hperm : qd.permission ≠ "") (hiso : IsoVisit true qd.types u)
+    (h : (filterTargetsUnrepaired u qd q inv).result = .ok objs) :
+    ∀ o ∈ objs, Allowed u qd.permission o ∧ o ∈ inv := by
+  obtain ⟨hp, hall⟩ := filterTargets_ok true u qd q inv objs hiso h
+  rw [hasPermission_of_ne hperm] at hp
+  intro o ho
+  exact ⟨pfIso_allowed hperm hp (hall o ho).1, (hall o ho).2⟩
 
 /-! The witness of F-C18a: permission `actions/*` with the filter `{{ service.vars.ok }}` (it needs `service`;
     on a Host alone it raises an error), the action query `service=h1!s0&type=Host&filter=true`. -/
@@ -86,20 +69,15 @@ def cxTrue : UFilter := { pred := fun _ => some true, fast := none }
 def cxQ : Query :=
   { single := [("Service", "h1!s0")], type := some "Host", typeValid := true, filter := some cxTrue }
 
-/-- **targets_subset_allowed_counterexample.**  The full statement is false: the host is returned although
-    the user's only permission filter is not true of it (alone, the filter raises an error — and indeed the
-    plain query for the hosts is refused). -/
-theorem targets_subset_allowed_counterexample :
-    ¬ (∀ (u : User) (qd : QD) (q : Query) (inv : Inventory) (objs : List Obj), qd.permission ≠ "" →
-        (filterTargets u qd q inv).result = .ok objs → ∀ o ∈ objs, Allowed u qd.permission o ∧ o ∈ inv) := by
-  intro h
-  have hres : (filterTargets cxUser cxQD cxQ cxInv).result = .ok [cxSvc, cxHost] := by decide
-  have := (h cxUser cxQD cxQ cxInv _ (by decide) hres cxHost (by decide)).1
-  exact absurd ((allowedB_iff _ _ _).2 this) (by decide)
-
-/-- the same user asking for the hosts alone is refused (the filter raises on the first host) -/
-example : (filterTargets cxUser cxQD { type := some "Host", typeValid := true, filter := some cxTrue } cxInv).result
-    = .error .other := by decide
+/-- **unrepaired_shared_frame_returns_forbidden.**  The un-repaired variant returns the host although the
+    user's only permission filter is not true of it; the code as it is refuses the request (the filter
+    raises on the first host, exactly as for the plain query for the hosts). -/
+theorem unrepaired_shared_frame_returns_forbidden :
+    (filterTargetsUnrepaired cxUser cxQD cxQ cxInv).result = .ok [cxSvc, cxHost] ∧
+    allowedB cxUser cxQD.permission cxHost = false ∧
+    (filterTargets cxUser cxQD cxQ cxInv).result = .error .other ∧
+    (filterTargets cxUser cxQD { type := some "Host", typeValid := true, filter := some cxTrue } cxInv).result
+      = .error .other := by decide
 
 /-- **no_permission_rejects_first.**  When no entry of the user matches the required permission the
     request fails with the permission error and the provider / inventory was never consulted (empty
@@ -112,50 +90,43 @@ theorem no_permission_rejects_first (u : User) (qd : QD) (q : Query) (inv : Inve
     simp only [List.any_eq_false]
     intro p hp
     simp [hno p hp]
-  simp [filterTargets, this]
+  simp [filterTargets, filterTargetsWith, this]
 
-theorem pfIso_ne_of_not_allowed {u : User} {perm : String} {o : Obj} (hperm : perm ≠ "")
-    (hm : someMatch u perm = true) (hforbidden : ¬ Allowed u perm o) :
-    pfIso (permissionFilters u perm) o ≠ some true :=
-  fun h => hforbidden (pfIso_allowed hperm hm h)
-
-/-- **forbidden_by_name_is_error_partial.**  Under `IsoVisit`: if the query addresses by name (single or
-    inside a plural list, possibly together with other names, a type and a filter) an existing object that
-    the user is not allowed to act on, the whole request is an error — never that object, never an empty
-    success.  (In the code hosts are looked up before services (`std::set` order of `qd.Types`), so a named
-    host is never evaluated with a stale `service`; the model does not fix the order of `types`, hence the
-    hypothesis.  The unconditional single-name form follows.) -/
-theorem forbidden_by_name_is_error_partial (u : User) (qd : QD) (q : Query) (inv : Inventory) (t n : String) (o : Obj)
-    (hperm : qd.permission ≠ "") (hiso : IsoVisit qd.sharedFrame qd.types u)
+/-- **forbidden_by_name_is_error.**  If the query addresses by name (single or inside a plural list,
+    possibly together with other names, a type and a filter) an existing object that the user is not
+    allowed to act on, the whole request is an error — never that object, never an empty success. -/
+theorem forbidden_by_name_is_error (u : User) (qd : QD) (q : Query) (inv : Inventory) (t n : String) (o : Obj)
+    (hperm : qd.permission ≠ "")
     (hreq : (t, n) ∈ namedRequests qd.types q) (hl : lookup inv t n = some o)
     (hforbidden : ¬ Allowed u qd.permission o) :
     ∃ e, (filterTargets u qd q inv).result = .error e := by
   by_cases hm : someMatch u qd.permission = true
-  · exact filterTargets_forbidden u qd q inv t n o hiso hreq hl (pfIso_ne_of_not_allowed hperm hm hforbidden)
+  · exact filterTargets_forbidden false u qd q inv t n o (Or.inl rfl) hreq hl
+      (pfIso_ne_of_not_allowed hperm hm hforbidden)
   · refine ⟨.permission, ?_⟩
     have : hasPermission u qd.permission = false := by
       rw [hasPermission_of_ne hperm]; simpa using hm
-    simp [filterTargets, this]
+    simp [filterTargets, filterTargetsWith, this]
 
-/-- **forbidden_single_name_is_denied.**  The plain case of the sentence in the property, without any
-    hypothesis on the filters: one name, nothing else — the error is "Access denied" (or the error the
-    filter itself raised on that object) and only that object was looked up. -/
+/-- **forbidden_single_name_is_denied.**  The plain case of the sentence in the property: one name, nothing
+    else — the error is "Access denied" (or the error the filter itself raised on that object) and only
+    that object was looked up. -/
 theorem forbidden_single_name_is_denied (u : User) (perm t n : String) (o : Obj) (inv : Inventory)
-    (cfg shared : Bool) (hperm : perm ≠ "") (hm : someMatch u perm = true)
+    (cfg : Bool) (hperm : perm ≠ "") (hm : someMatch u perm = true)
     (hl : lookup inv t n = some o) (hforbidden : ¬ Allowed u perm o) :
-    let r := filterTargets u { types := [t], permission := perm, cfgProvider := cfg, sharedFrame := shared }
+    let r := filterTargets u { types := [t], permission := perm, cfgProvider := cfg }
                 { single := [(t, n)], type := some t, typeValid := true } inv
     (r.result = .error .denied ∨ r.result = .error .other) ∧ r.log = [.byName t n] := by
   have hpf := pfIso_ne_of_not_allowed hperm hm hforbidden
   have hp : hasPermission u perm = true := by rw [hasPermission_of_ne hperm]; exact hm
-  have hframe : frameFor shared none o = bindSvc none o := by cases shared <;> rfl
+  have hframe : frameFor false none o = bindSvc none o := rfl
   unfold pfIso at hpf
   cases hv : pfVal (permissionFilters u perm) (bindSvc none o) o with
-  | none => simp [filterTargets, hp, namedSteps, runNamed, hl, hframe, hv, List.lookup]
+  | none => simp [filterTargets, filterTargetsWith, hp, namedSteps, runNamed, hl, hframe, hv, List.lookup]
   | some b =>
     cases b with
     | true => exact absurd hv hpf
-    | false => simp [filterTargets, hp, namedSteps, runNamed, hl, hframe, hv, List.lookup]
+    | false => simp [filterTargets, filterTargetsWith, hp, namedSteps, runNamed, hl, hframe, hv, List.lookup]
 
 /-- **joined_access_subset_allowed.**  The per-object decision taken for joined objects
     (HasPermission + EvaluateFilter in a frame of its own, objectqueryhandler.cpp:262-299) grants only
@@ -176,21 +147,18 @@ theorem handler_targets_subset_allowed (u : User) (verb type : String) (pathName
     intro h0
     have := congrArg String.length h0
     simp [handlerQD, String.length_append] at this
-  exact targets_subset_allowed_single_type u (handlerQD verb type) (handlerQuery type pathName q) inv objs type hne rfl h
+  exact targets_subset_allowed u (handlerQD verb type) (handlerQuery type pathName q) inv objs hne h
 
-/-! ### result_independent_of_visit_order
-
-  FULL STATEMENT (false of the unchanged code — the same finding F-C18a): as below without `hiso`. -/
-
-/-- **result_independent_of_visit_order_partial.**  Under `IsoVisit`, two requests that address the same names
-    in a different order (e.g. a permuted plural name list) and are otherwise equal have the same outcome:
-    both fail, or both return the same objects with the same multiplicities. -/
-theorem result_independent_of_visit_order_partial (u : User) (qd : QD) (q1 q2 : Query) (inv : Inventory)
-    (hiso : IsoVisit qd.sharedFrame qd.types u)
+/-- **result_independent_of_visit_order.**  Two requests that address the same names in a different order
+    (e.g. a permuted plural name list) and are otherwise equal have the same outcome: both fail, or both
+    return the same objects with the same multiplicities. -/
+theorem result_independent_of_visit_order (u : User) (qd : QD) (q1 q2 : Query) (inv : Inventory)
     (hsteps : (namedSteps qd.types q1).Perm (namedSteps qd.types q2))
     (ht : q1.type = q2.type) (hv : q1.typeValid = q2.typeValid) (hf : q1.filter = q2.filter) :
     specOrder (filterTargets u qd q1 inv).result (filterTargets u qd q2 inv).result = none := by
+  have hiso : IsoVisit false qd.types u := Or.inl rfl
   have hsame : sameOutcome (filterTargets u qd q1 inv).result (filterTargets u qd q2 inv).result = true := by
+    unfold filterTargets
     rw [filterTargets_result, filterTargets_result]
     cases hasPermission u qd.permission with
     | false => rfl
@@ -214,8 +182,8 @@ theorem result_independent_of_visit_order_partial (u : User) (qd : QD) (q1 q2 : 
         rfl
   simp [specOrder, hsame]
 
-/-- two services in a plural list, both allowed by themselves; the hosts are returned only when the list
-    ends with the service the filter likes -/
+/-- two services in a plural list, both allowed by themselves; before the repair the hosts were returned only
+    when the list ended with the service the filter likes -/
 def cxUser2 : User :=
   [⟨"actions/*", some (fun b o => b.map (fun s => s.name == "h1!s0" || o.type == "Service"))⟩]
 def cxQ12 : Query :=
@@ -223,19 +191,13 @@ def cxQ12 : Query :=
 def cxQ21 : Query :=
   { plural := [("Service", ["h1!s0", "h1!s1"])], type := some "Host", typeValid := true, filter := some cxTrue }
 
-/-- **result_independent_of_visit_order_counterexample.**  Without `IsoVisit` the statement is false: the
-    same names in the other order return a different set. -/
-theorem result_independent_of_visit_order_counterexample :
-    ¬ (∀ (u : User) (qd : QD) (q1 q2 : Query) (inv : Inventory),
-        (namedSteps qd.types q1).Perm (namedSteps qd.types q2) → q1.type = q2.type →
-        q1.typeValid = q2.typeValid → q1.filter = q2.filter →
-        specOrder (filterTargets u qd q1 inv).result (filterTargets u qd q2 inv).result = none) := by
-  intro h
-  have := h cxUser2 cxQD cxQ12 cxQ21 cxInv (List.isPerm_iff.1 (by decide)) rfl rfl rfl
-  have h1 : (filterTargets cxUser2 cxQD cxQ12 cxInv).result = .ok [cxSvc2, cxSvc, cxHost] := by decide
-  have h2 : (filterTargets cxUser2 cxQD cxQ21 cxInv).result = .ok [cxSvc, cxSvc2] := by decide
-  rw [h1, h2] at this
-  exact absurd this (by decide)
+/-- **unrepaired_shared_frame_depends_on_visit_order.**  In the un-repaired variant the same names in the other
+    order return a different set; the code as it is refuses both requests alike. -/
+theorem unrepaired_shared_frame_depends_on_visit_order :
+    (filterTargetsUnrepaired cxUser2 cxQD cxQ12 cxInv).result = .ok [cxSvc2, cxSvc, cxHost] ∧
+    (filterTargetsUnrepaired cxUser2 cxQD cxQ21 cxInv).result = .ok [cxSvc, cxSvc2] ∧
+    specOrder (filterTargets cxUser2 cxQD cxQ12 cxInv).result (filterTargets cxUser2 cxQD cxQ21 cxInv).result = none := by
+  decide
 
 /-- The permission checks the model, the harness and these proofs were written against
     (file below lib/, expression with non-literal operands as `<>`). -/
@@ -279,12 +241,10 @@ theorem handler_permission_table_matches_source :
   refine ⟨by decide, by decide, by decide, by decide, by decide, by decide, by decide, by decide, ?_, ?_, ?_, ?_⟩ <;>
     simp [handlerPermission, Gen.handlerPermissions]
 
-/-- **model_query_meets_spec_partial** (the whole property as one statement).  For every user, required
-    permission, query, inventory, provider kind and recogniser answer for which `IsoVisit` holds — in
-    particular for the repaired code, and for every single-type request of the code as it is — the outcome of
-    the model (result and provider-call log) satisfies the executable specification `specQuery`. -/
-theorem model_query_meets_spec_partial (u : User) (qd : QD) (q : Query) (inv : Inventory)
-    (hiso : IsoVisit qd.sharedFrame qd.types u) :
+/-- **model_query_meets_spec** (the whole property as one statement).  For every user, required permission,
+    query, inventory, provider kind and recogniser answer, the outcome of the model — result and
+    provider-call log — satisfies the executable specification `specQuery`. -/
+theorem model_query_meets_spec (u : User) (qd : QD) (q : Query) (inv : Inventory) :
     specQuery u qd q inv ⟨(filterTargets u qd q inv).result, some (filterTargets u qd q inv).log⟩ = none := by
   unfold specQuery
   by_cases hperm : qd.permission = ""
@@ -296,7 +256,7 @@ theorem model_query_meets_spec_partial (u : User) (qd : QD) (q : Query) (inv : I
       cases hr : (filterTargets u qd q inv).result with
       | error e => rfl
       | ok objs =>
-        have hall := targets_subset_allowed_partial u qd q inv objs hperm hiso hr
+        have hall := targets_subset_allowed u qd q inv objs hperm hr
         have h1 : (objs.any fun o => !inv.contains o) = false := by
           simp only [List.any_eq_false]
           intro o ho
@@ -320,7 +280,7 @@ theorem model_query_meets_spec_partial (u : User) (qd : QD) (q : Query) (inv : I
                 intro ha
                 rw [(allowedB_iff u qd.permission o).2 ha] at hx
                 cases hx
-              obtain ⟨e, he⟩ := forbidden_by_name_is_error_partial u qd q inv t n o hperm hiso hreq hl hna
+              obtain ⟨e, he⟩ := forbidden_by_name_is_error u qd q inv t n o hperm hreq hl hna
               rw [hr] at he
               cases he
         simp only [h1, h2, h3, Bool.false_eq_true, if_false]
@@ -330,12 +290,10 @@ theorem model_query_meets_spec_partial (u : User) (qd : QD) (q : Query) (inv : I
       obtain ⟨h1, h2⟩ := no_permission_rejects_first u qd q inv hperm hno
       simp [hm', h1, h2, isPermissionError, logEmpty]
 
-/-- **model_query_meets_spec_counterexample.**  Without `IsoVisit` the specification fails on the model's —
-    and the implementation's — outcome for the witness of F-C18a. -/
-theorem model_query_meets_spec_counterexample :
-    specQuery cxUser cxQD cxQ cxInv
-      ⟨(filterTargets cxUser cxQD cxQ cxInv).result, some (filterTargets cxUser cxQD cxQ cxInv).log⟩
-      = some .returnedAllowed := by decide
+/-- the specification does reject the outcome the un-repaired variant produced for the witness of F-C18a -/
+example : specQuery cxUser cxQD cxQ cxInv
+    ⟨(filterTargetsUnrepaired cxUser cxQD cxQ cxInv).result, some (filterTargetsUnrepaired cxUser cxQD cxQ cxInv).log⟩
+    = some .returnedAllowed := by decide
 
 /-- **model_access_meets_spec.**  The same for the per-object decision. -/
 theorem model_access_meets_spec (u : User) (perm : String) (o : Obj) :
@@ -362,7 +320,7 @@ theorem model_grant_meets_spec (u : User) (perm : String) :
 
   Full converse (NOT a theorem):  `Allowed u perm o → o ∈ ofType inv t → o` is returned by the plain
   type query.  It fails because a matching entry *without* a filter adds nothing to the OR of filters
-  (filterutility.cpp:174): next to a filtered matching entry it does not widen access.  That is
+  (filterutility.cpp:213): next to a filtered matching entry it does not widen access.  That is
   over-restriction and inside the property's "only if". -/
 
 def exH0 : Obj := ⟨"Host", "h0"⟩
@@ -383,7 +341,7 @@ theorem converse_fails_by_overrestriction :
 
 /-! ### Non-vacuity -/
 
-/-- hypotheses of `targets_subset_allowed_partial` hold (a single-type request, so `IsoVisit` holds) on a non-trivial state (a non-empty result) -/
+/-- hypotheses of `targets_subset_allowed` hold on a non-trivial state (a non-empty result) -/
 example : exQD.permission ≠ "" ∧ (filterTargets exUser exQD exAll exInv).result = .ok [exH1] := by decide
 
 /-- every addressing path on one query: name + plural list + fast-path filter -/
@@ -397,13 +355,13 @@ example :
 example : ∀ p ∈ ([⟨"objects/query/Hos", none⟩, ⟨"actions/*", none⟩] : User),
     wildMatch p.pattern "objects/query/Host" = false := by decide
 
-/-- hypotheses of `forbidden_by_name_is_error_partial` / `forbidden_single_name_is_denied` -/
+/-- hypotheses of `forbidden_by_name_is_error` / `forbidden_single_name_is_denied` -/
 example : ("Host", "h0") ∈ namedRequests exQD.types { single := [("Host", "h0")] } ∧
     lookup exInv "Host" "h0" = some exH0 ∧
     someMatch [⟨"objects/query/*", some (fun _ o => some (o.name == "h1"))⟩] exQD.permission = true ∧
     allowedB [⟨"objects/query/*", some (fun _ o => some (o.name == "h1"))⟩] exQD.permission exH0 = false := by decide
 
-/-- hypotheses of `result_independent_of_visit_order_partial`: a plural list in two orders, one name allowed and
+/-- hypotheses of `result_independent_of_visit_order`: a plural list in two orders, one name allowed and
     one forbidden — both requests fail, whatever the order -/
 example :
     (namedSteps exQD.types { plural := [("Host", ["h1", "h0"])], type := some "Host", typeValid := true }).Perm
